@@ -970,3 +970,107 @@ Proof.
   cbn [cmp_skip0 negb]. replace (has_year (r_raw R_md)) with false by reflexivity.
   rewrite infer_same_year by (try split; lia). reflexivity.
 Qed.
+
+
+(* ------------------------------------------------------------------ F: a user-supplied --input-date-format over
+   %Y %m %d %% and literal characters reads back what the same format prints *)
+Definition in_item_ok (i : item) : Prop :=
+  match i with
+  | ILit c => is_space c = false
+  | IDir c => c = 89 \/ c = 109 \/ c = 100 \/ c = 37
+  | IBad => False
+  end.
+
+Definition is_dir (c : Z) (i : item) : bool := match i with IDir x => x =? c | _ => false end.
+Definition has_dir (c : Z) (f : list item) : bool := existsb (is_dir c) f.
+
+Definition set_fields (f : list item) (t : tm) (y m d : Z) : tm :=
+  mkTm (if has_dir 89 f then y - 1900 else tm_year t)
+       (if has_dir 109 f then m - 1 else tm_mon t)
+       (if has_dir 100 f then d else tm_mday t).
+
+Lemma set_fields_skip i f t y m d :
+  is_dir 89 i = false -> is_dir 109 i = false -> is_dir 100 i = false ->
+  set_fields (i :: f) t y m d = set_fields f t y m d.
+Proof. intros A B C. unfold set_fields, has_dir. cbn [existsb]. rewrite A, B, C. reflexivity. Qed.
+
+Lemma strptime_strftime f : forall y m d w r t,
+  Forall in_item_ok f -> 0 <= y <= 9999 -> 1 <= m <= 12 -> 1 <= d <= 31 ->
+  strftime f y m d = Some w -> strptime f (w ++ r) t = POk (set_fields f t y m d) r.
+Proof.
+  induction f as [|i f IH]; intros y m d w r t Hok Hy Hm Hd S.
+  - cbn in S. injection S as <-. destruct t. reflexivity.
+  - apply Forall_cons_iff in Hok as [Hi Hok]. destruct i as [c|c|]; cbn [in_item_ok] in Hi; [| |contradiction].
+    + cbn [strftime] in S. destruct (strftime f y m d) as [w'|] eqn:S'; [|discriminate]. injection S as <-.
+      cbn [strptime app]. rewrite Hi. cbn [match_char]. rewrite Z.eqb_refl.
+      rewrite (IH y m d w' r t Hok Hy Hm Hd S'). rewrite set_fields_skip by reflexivity. reflexivity.
+    + cbn [strftime] in S. destruct (fmt_dir c y m d) as [a|] eqn:A; [|discriminate].
+      destruct (strftime f y m d) as [w'|] eqn:S'; [|discriminate]. injection S as <-.
+      rewrite <- app_assoc.
+      destruct Hi as [ -> | [ -> | [ -> | -> ] ] ]; cbn [fmt_dir Z.eqb Pos.eqb] in A; injection A as <-;
+        cbn [strptime Z.eqb Pos.eqb orb].
+      * rewrite get_number_digits4 by lia. rewrite (IH y m d w' r _ Hok Hy Hm Hd S').
+        unfold set_fields, has_dir. cbn [existsb is_dir Z.eqb Pos.eqb orb tm_year tm_mon tm_mday].
+        destruct (existsb (is_dir 89) f); reflexivity.
+      * rewrite get_number_digits2 by lia. rewrite (IH y m d w' r _ Hok Hy Hm Hd S').
+        unfold set_fields, has_dir. cbn [existsb is_dir Z.eqb Pos.eqb orb tm_year tm_mon tm_mday].
+        destruct (existsb (is_dir 109) f); reflexivity.
+      * rewrite get_number_digits2 by lia. rewrite (IH y m d w' r _ Hok Hy Hm Hd S').
+        unfold set_fields, has_dir. cbn [existsb is_dir Z.eqb Pos.eqb orb tm_year tm_mon tm_mday].
+        destruct (existsb (is_dir 100) f); reflexivity.
+      * cbn [app match_char Z.eqb Pos.eqb].
+        rewrite (IH y m d w' r t Hok Hy Hm Hd S'). rewrite set_fields_skip by reflexivity. reflexivity.
+Qed.
+
+(* has_year looks at the raw text; a %Y directive found by the lexer is such a substring *)
+Lemma has_pct_cons a b c s : has_pct a b s = true -> has_pct a b (c :: s) = true.
+Proof.
+  destruct s as [|d s]; [discriminate|]. intros H. cbn [has_pct] in *. rewrite H. apply orb_true_r.
+Qed.
+
+Lemma lex_has_year_aux n : forall s, (length s <= n)%nat ->
+  has_dir 89 (lex_fmt s) = true -> has_pct 121 89 s = true.
+Proof.
+  induction n as [|n IH]; intros s L H.
+  - destruct s; [discriminate | cbn in L; lia].
+  - destruct s as [|c s]; [discriminate|]. cbn [lex_fmt] in H.
+    destruct (Z.eqb_spec c 37) as [->|N].
+    + destruct s as [|d s]; [discriminate|]. unfold has_dir in H. cbn [existsb is_dir] in H.
+      cbn [has_pct]. cbn [Z.eqb Pos.eqb andb].
+      destruct (Z.eqb_spec d 89) as [->|N2]; [rewrite orb_true_r; reflexivity|].
+      cbn [orb] in H. destruct (d =? 121); cbn [orb]; [reflexivity|].
+      apply has_pct_cons. apply IH; [cbn in L; lia | exact H].
+    + unfold has_dir in H. cbn [existsb is_dir orb] in H. apply has_pct_cons. apply IH; [cbn in L; lia | exact H].
+Qed.
+
+Lemma lex_has_year s : has_dir 89 (lex_fmt s) = true -> has_year s = true.
+Proof.
+  intros H. unfold has_year. rewrite (lex_has_year_aux (length s) s (le_n _) H). reflexivity.
+Qed.
+
+Lemma parse_custom_roundtrip raw cur y m d w :
+  Forall in_item_ok (lex_fmt raw) ->
+  has_dir 89 (lex_fmt raw) = true -> has_dir 109 (lex_fmt raw) = true -> has_dir 100 (lex_fmt raw) = true ->
+  valid_ymd y m d -> 1400 <= y <= 9999 ->
+  format_date raw (boost_day_number y m d) = Some w ->
+  parse_date [raw] cur w = DOk (boost_day_number y m d).
+Proof.
+  intros Hok HY Hm Hd V Hy F. pose proof (days_in_month_range y m) as Hr.
+  unfold parse_date, readers_for, conv_for, src_input_format_pushes_front, src_input_format_disables_conversion.
+  cbn [rev map app parse_mask]. unfold parse_routine.
+  unfold format_date, format_dn in F. rewrite boost_roundtrip in F by exact V.
+  destruct (strftime (lex_fmt raw) y m d) as [w0|] eqn:S; [|discriminate].
+  destruct (Z.ltb_spec 126 (Z.of_nat (length w0))) as [L|L]; [discriminate|]. injection F as <-.
+  assert (L2 : (src_max_date_len <? Z.of_nat (length w0)) = false)
+    by (apply Z.ltb_ge; unfold src_max_date_len; lia).
+  rewrite L2. cbn [mk_reader r_items r_raw].
+  rewrite <- (app_nil_r w0) at 1.
+  destruct V as [Vm Vd].
+  rewrite (strptime_strftime _ y m d w0 [] _ Hok ltac:(lia) ltac:(lia) ltac:(lia) S).
+  unfold set_fields. rewrite HY, Hm, Hd. cbn [tm_year tm_mon tm_mday].
+  replace (y - 1900 + 1900) with y by ring. replace (m - 1 + 1) with m by ring.
+  rewrite mk_date_ok by (try split; lia).
+  unfold format_dn. rewrite boost_roundtrip by (split; lia). rewrite S.
+  destruct (Z.ltb_spec 126 (Z.of_nat (length w0))); [lia|].
+  rewrite cmp_refl. cbn [negb]. rewrite (lex_has_year raw HY). reflexivity.
+Qed.
